@@ -105,6 +105,10 @@ func jwkForDocType(r *fw.Rand, typ string) map[string]interface{} {
 	case TBls:
 		return map[string]interface{}{"kty": "EC", "crv": "BLS12381_G2", "x": oracle.B64(r.Bytes(96))}
 	}
+	if r.Chance(1, 10) {
+		// a complete RSA public key is a valid JsonWebKey2020 value too
+		return map[string]interface{}{"kty": "RSA", "n": oracle.B64(r.Bytes(256)), "e": "AQAB"}
+	}
 	j := NewKey(r, fw.Pick(r, []string{Ed25519, P256, P384, Secp256k1})).PlainJWK()
 	// JWKs may legitimately carry further members; they are key material and must survive every stage
 	if r.Chance(1, 4) {
